@@ -26,7 +26,7 @@ CHECKS = {
             dict(name="float", target="h_parsenum", args=["--part", "float"]),
             dict(name="human", target="h_parsenum", args=["--part", "human"]),
         ],
-        deadline=dict(quick=150, thorough=900),
+        deadline=dict(quick=300, thorough=1350),
         parallel_runs=1,
         rule=("Every string over the stated alphabet up to the stated length (plus the generated boundary numerals) is "
               "evaluated with every target type x bounds form x base x trailing flag through the real PARSENUM/PARSENUM_EX "
